@@ -152,6 +152,15 @@ func c15Run(c *ev.Ctx, seq []c15step, si int, faultAt int, ferr error, kind stri
 				if res.Msg.Type != wire.Rlerror || res.Errno() != EFAULT {
 					c.Violation("C15:panic-not-answered-EFAULT:in-"+firedMethod, map[string]any{"reply": res.Msg.String(), "trace": st.tail()})
 				}
+				if s.a.t == wire.Tclunk || s.a.t == wire.Tremove {
+					// "Tclunk and Tremove always unbind their fid whatever else
+					// they report" - EFAULT included
+					fsx.PauseFaults(true)
+					if g := st.peers[s.conn].RPC(wire.Tgetattr, s.a.vals[0], u(1)); g.OK && g.Errno() != EBADF {
+						c.Violation("C15:fid-still-bound-after-"+wire.TypeName(s.a.t)+"-whose-backend-call-panicked:in-"+firedMethod, map[string]any{"request": s.a.String(), "probe": g.Msg.String(), "trace": st.tail()})
+					}
+					fsx.PauseFaults(false)
+				}
 				st.relax = true
 				continue
 			}
